@@ -47,3 +47,58 @@ def wdeco(fn):
 
 
 RICH_IMPORT = "<%! from harness.c05_rt import wdeco\nfrom harness.tmpl_rt import flt1 %>"
+
+
+# ------------------------------------------------------------------------------------------------------------------
+# decorator families that TRANSFORM the arguments (stream oracle.decorators, harness/c05_deco.py).
+# A decorator gets the callable `fn` (taking *args, **kw) and returns a callable taking (context, *args, **kw);
+# `transform(family, a, kw)` is the list of calls [(args', kwargs')] it makes.  The same decorator objects are applied
+# to a plain Python function to compute the expected result.
+
+DECO_FAMILIES = ("fwd", "kwrepl", "kwadd", "kwpop", "swap", "posmark", "twice")
+
+
+def transform(family, a, kw):
+    a = list(a)
+    kw = dict(kw)
+    if family == "fwd":
+        return [(a, kw)]
+    if family == "kwrepl":                       # replace every keyword value
+        return [(a, {k: "R" + v for k, v in kw.items()})]
+    if family == "kwadd":                        # add a keyword
+        if "extra" not in kw:
+            kw["extra"] = "ADD"
+        return [(a, kw)]
+    if family == "kwpop":                        # drop the first keyword (call order)
+        for k0 in kw:
+            del kw[k0]
+            break
+        return [(a, kw)]
+    if family == "swap":                         # reverse the positionals
+        return [(a[::-1], kw)]
+    if family == "posmark":                      # mark every positional
+        return [(["P" + x for x in a], kw)]
+    if family == "twice":                        # two calls, the second with other keywords
+        return [(a, kw), (a, {k: v + "2" for k, v in kw.items()})]
+    raise ValueError(family)
+
+
+def _mk(family):
+    def deco(fn):
+        def wrapped(context, *a, **kw):
+            context.write("<%s:" % family)
+            res = []
+            for a2, kw2 in transform(family, a, kw):
+                res.append(fn(*a2, **kw2))
+            context.write(">")
+            return "".join("" if r is None else str(r) for r in res)
+        return wrapped
+    deco.__name__ = "xd_" + family
+    return deco
+
+
+for _f in DECO_FAMILIES:
+    globals()["xd_" + _f] = _mk(_f)
+
+DECO_IMPORT = "<%! from harness.c05_rt import " + ", ".join("xd_" + f for f in DECO_FAMILIES) + \
+    "\nfrom harness.tmpl_rt import flt1 %>"
